@@ -15,7 +15,7 @@ def run(cmd, cwd, timeout=900):
 
 def main():
     pid, m, needs = sys.argv[1], sys.argv[2], sys.argv[3]
-    src = f'/tmp/wtout/{pid}/{m}'
+    src = os.environ.get('WTOUT', '/tmp/wtout') + f'/{pid}/{m}'
     sw = f'/tmp/sw-{pid}-{m}'
     subprocess.run(f'git -C /repo worktree remove --force {sw}', shell=True, capture_output=True)
     rc, out = run(f'git -C /repo worktree add -q --detach {sw} HEAD', '/')
